@@ -25,6 +25,8 @@ def make_ds(ctx, rng, d):
     sizes = rng.choice([[4, 8, 8], [7, 1, 5], [20], [3, 3, 3, 3], [8, 7]])
     if d == 0:
         sizes = [4, 8, 8]
+    if d == 1:
+        sizes = [40, 10]          # directed: a row group of several v1 pages (see the page-gap programs)
     n = sum(sizes)
     df = pd.DataFrame({"rid": np.arange(n, dtype="int64")})
     df["i"] = np.array([rng.randrange(0, 12) for _ in range(n)], dtype="int64")
@@ -44,6 +46,11 @@ def make_ds(ctx, rng, d):
         parts = ["p"]
     pagesize = rng.choice([None, None, 64, 200])
     version = rng.choice([1, 1, 2])
+    if d == 1:
+        layout, parts, pagesize, version = "simple", [], 64, 1
+        df = df.drop(columns=["p"], errors="ignore")
+    if d == 2:
+        pagesize, version = 64, 2
     path = os.path.join(ctx.workdir("c13"), f"d{d}")
     shutil.rmtree(path, ignore_errors=True)
     if os.path.isfile(path):
@@ -110,10 +117,17 @@ def run(ctx, report):
             rec = {"check": "rowfilter", "dataset": desc, "program": kind, "out_columns": outcols}
             ctx.crumb(rec)
             try:
+                gap = d in (1, 2) and p < 4
+                if gap:
+                    # directed: rows selected in the first and in later pages of a row group, none in the page(s) between
+                    kind = "mask" if p % 2 == 0 else "or2"
                 if kind == "mask":
                     mask = np.array([rng.random() < rng.choice([0.1, 0.5, 0.9]) for _ in range(len(full))], dtype=bool)
                     if rng.random() < 0.2:
                         mask[: len(mask) // 2] = False
+                    if gap:
+                        lo, hi = (5, 20) if p == 0 else (2, 33)
+                        mask = np.array([(r < lo or r >= hi) for r in range(len(full))], dtype=bool)
                     rec["mask_true"] = int(mask.sum())
                     got = pf.to_pandas(columns=outcols, row_filter=mask) if outcols else pf.to_pandas(row_filter=mask)
                     want_rids = [int(r) for r, m in zip(full["rid"], mask) if m]
@@ -125,6 +139,9 @@ def run(ctx, report):
                         dnf = [filt]
                     else:
                         dnf = [[rand_cond(rng, full, cols) for _ in range(rng.choice([1, 2]))] for _ in range(int(kind[-1]))]
+                        if gap:
+                            lo, hi = (5, 20) if p == 1 else (1, 26)
+                            dnf = [[("rid", "<", lo)], [("rid", ">=", hi)]]
                         filt = dnf
                     rec["filters"] = repr(filt)
                     rec["mentions_partition_in_or"] = bool(desc["parts"]) and len(dnf) > 1 and any(c[0] in desc["parts"] for g in dnf for c in g)
@@ -150,7 +167,28 @@ def run(ctx, report):
                     want_rids = [int(r["rid"]) for r in records if row_sat(r, True)]
                     dontcare = {int(r["rid"]) for r in records if row_sat(r, False)} - set(want_rids)
             except TypeError as e:
-                report.count("refused:type")
+                # a refusal only when the predicate itself compares incomparable values (the oracle cannot evaluate it either)
+                incomparable = False
+                if kind != "mask":
+                    try:
+                        def _c(r, c, op, v):
+                            x = r[c]
+                            if x is None or (isinstance(x, float) and math.isnan(x)):
+                                return False
+                            return sat(op, v, x)
+                        for r_ in records:
+                            any(all(_c(r_, *c) for c in g) for g in dnf)
+                    except TypeError:
+                        incomparable = True
+                # ... or when an ordering comparison meets a missing value in an object column (pandas refuses to order None
+                # against text): an explicit refusal, not a wrong answer
+                if "not supported between instances of 'NoneType'" in str(e) and kind != "mask":
+                    incomparable = True
+                if incomparable:
+                    report.count("refused:type")
+                    continue
+                report.violation({**rec, "what": "row-filtered read raised: " + canon_err(e) + " " + str(e)[:120], "multi_page": desc["pagesize"] is not None,
+                                  "page_version": desc["page_version"], "sig": f"raised:{kind}:TypeError:{'mp' if desc['pagesize'] else 'sp'}:v{desc['page_version']}"})
                 continue
             except Exception as e:  # noqa
                 report.violation({**rec, "what": "row-filtered read raised: " + canon_err(e) + " " + str(e)[:120], "multi_page": desc["pagesize"] is not None,
